@@ -417,84 +417,80 @@ def accessor_only(repo, res):
     min_instances=9,
 )
 def prefix_offsets(repo, res):
+    from ..absint import Interp, Node, Raised, _PyCall
+    from ..lnodes_model import load_classes
+    from ..sliceint import value_of
+
+    from ._irsamples import IRSamples, named
+
     rep = repo.mod("ffcx.ir.representation")
-    checks = [
-        ("_compute_integral_ir", "coefficient_offsets", r"zip\(form_data\.reduced_coefficients, form_data\.coefficient_elements\)",
-         r"width \* element_dimensions\[el\]"),
-        ("_compute_integral_ir", "original_constant_offsets", r"form_data\.original_form\.constants\(\)", r"np\.prod\(constant\.ufl_shape, dtype=int\)"),
-        ("_compute_expression_ir", "offsets", r"coefficient_elements", r"element_dimensions\[el\]"),
-        ("_compute_expression_ir", "original_constant_offsets", r"extract_constants\(original_expr\)", r"np\.prod\(constant\.ufl_shape, dtype=int\)"),
-    ]
-    for fname, dvar, seq_pat, inc_pat in checks:
-        f = rep.func(fname)
-        res.functions.add(f.key)
-        key = f"{f.key}:prefix:{dvar}"
-        res.ob(key)
-        loop = None
-        for lp in [n for n in walk_no_nested(f.node) if isinstance(n, ast.For)]:
-            for st in lp.body:
-                if isinstance(st, ast.Assign) and isinstance(st.targets[0], ast.Subscript) and isinstance(st.targets[0].value, ast.Name) \
-                        and st.targets[0].value.id == dvar and isinstance(st.value, ast.Name) and st.value.id == "_offset":
-                    loop = lp
-        if loop is None:
-            res.fail(key, f"no loop storing the running offset into {dvar}", rep.line(f.node))
-            continue
-        stmts = loop.body
-        store_i = [i for i, st in enumerate(stmts) if isinstance(st, ast.Assign) and isinstance(st.targets[0], ast.Subscript)
-                   and getattr(st.targets[0].value, "id", None) == dvar]
-        inc_i = [i for i, st in enumerate(stmts) if isinstance(st, ast.AugAssign) and getattr(st.target, "id", None) == "_offset"]
-        if not store_i or not inc_i or store_i[0] > inc_i[0]:
-            res.fail(key, f"{dvar}: the offset is stored after it was incremented (inclusive prefix sum): every object is read one "
-                     "slot too far", rep.line(loop))
-            continue
-        inc = stmts[inc_i[0]]
-        if not isinstance(inc.op, ast.Add) or not re.search(inc_pat, ast.unparse(inc.value)):
-            res.fail(key, f"{dvar}: offset increment is `{ast.unparse(inc)}`, expected += {inc_pat}", rep.line(inc))
-        sl = Slicer(f.node)
-        if not re.search(seq_pat, sl.text(loop.iter)):
-            res.fail(key, f"{dvar}: offsets enumerate `{ast.unparse(loop.iter)}`, expected the sequence /{seq_pat}/", rep.line(loop))
-        # reset to zero right before the loop
-        init = [n for n in walk_no_nested(f.node) if isinstance(n, ast.Assign) and getattr(n.targets[0], "id", None) == "_offset"]
-        if not init or any(ast.unparse(n.value) != "0" for n in init):
-            res.fail(key, "running offset does not start at 0", rep.line(f.node))
-        # the key stored is the loop's object
-        st = stmts[store_i[0]]
-        keyname = ast.unparse(st.targets[0].slice)
-        tnames = {n.id for n in ast.walk(loop.target) if isinstance(n, ast.Name)}
-        kn = {n.id for n in ast.walk(st.targets[0].slice) if isinstance(n, ast.Name)}
-        if not (kn & tnames) and "coefficients[i]" not in keyname:
-            res.fail(key, f"{dvar}: offset is stored under `{keyname}`, not under the object being enumerated", rep.line(st))
+    S = IRSamples(repo)
+    interp, integral_env = S.interp, S.integral_env
     f = rep.func("_compute_integral_ir")
-    key = f"{f.key}:interior-facet-width"
-    res.ob(key)
-    w = [n for n in walk_no_nested(f.node) if isinstance(n, ast.Assign) and getattr(n.targets[0], "id", None) == "width"]
-    ok = False
-    if len(w) == 1 and isinstance(w[0].value, ast.IfExp):
-        v = w[0].value
-        t = ast.unparse(v.test).replace(" ", "").replace("(", "").replace(")", "")
+    res.functions.add(f.key)
+
+    def run(func, env, what, **kw):
         try:
-            ok = const_value(v.body) == 2 and const_value(v.orelse) == 1 and t in ("integral_type=='interior_facet'", "integral_typein'interior_facet'", "integral_typein'interior_facet',")
-        except ValueError:
-            ok = False
-    if not ok:
-        res.fail(key, f"coefficient stride factor is `{ast.unparse(w[0].value) if w else '?'}`; ufcx.h: w[coefficient][restriction][dof] "
-                 "with two restrictions exactly on interior facets", rep.line(f.node))
+            return value_of(interp(), func, env, **kw)
+        except Raised as e:
+            return f"raises {e.what}"
+
+    for itype in ("cell", "exterior_facet", "interior_facet", "vertex", "ridge"):
+        width = 2 if itype == "interior_facet" else 1
+        key = f"{f.key}:prefix:coefficient_offsets:{itype}"
+        res.ob(key)
+        got = named(run(f, integral_env(itype), "coefficient offsets", key="coefficient_offsets"))
+        want = [("B", 0), ("C", 3 * width)]
+        if got != want:
+            res.fail(key, f"{itype} integral with reduced coefficients [B (dim 3), C (dim 4)]: coefficient offsets into w are {got}, expected {want}; ufcx.h: "
+                     "w[coefficient][restriction][dof], an exclusive prefix sum of the element dimensions, with two restrictions exactly on interior facets",
+                     rep.line(f.node))
     key = f"{f.key}:numbering"
     res.ob(key)
-    if "coefficient_numbering[coeff] = i" not in ast.unparse(f.node):
-        res.fail(key, "coefficient_numbering is not the position in reduced_coefficients", rep.line(f.node))
+    got = named(run(f, integral_env("cell"), "numbering", key="coefficient_numbering"))
+    if got != [("B", 0), ("C", 1)]:
+        res.fail(key, f"coefficient_numbering of the reduced coefficients [B, C] is {got}; it must be the position in reduced_coefficients (B->0, C->1)", rep.line(f.node))
+    key = f"{f.key}:prefix:original_constant_offsets"
+    res.ob(key)
+    got = named(run(f, integral_env("cell"), "constant offsets", key="original_constant_offsets"))
+    want_c = [("k0", 0), ("k1", 1), ("k2", 7)]
+    if got != want_c:
+        res.fail(key, f"constants [k0 (), k1 (2,3), k2 (2,)] of the original form get offsets {got} into c, expected {want_c}: an exclusive prefix sum of prod(shape) "
+                 "over original_form.constants(), the sequence the form descriptor enumerates", rep.line(f.node))
     key = f"{f.key}:enabled_coefficients"
     res.ob(key)
-    if "'enabled_coefficients': itg_data.enabled_coefficients" not in ast.unparse(f.node):
-        res.fail(key, "IntegralIR.enabled_coefficients is not UFL's itg_data.enabled_coefficients", rep.line(f.node))
-    for be in ("C", "numba"):
-        g = repo.mod(f"ffcx.codegeneration.{be}.integral").func("generator")
-        key = f"{g.key}:enabled_coefficients"
-        res.ob(key)
-        src = ast.unparse(g.node)
-        if not re.search(r"'1' if i else '0' for i in ir\.enabled_coefficients", src):
-            res.fail(key, f"{be} integral generator does not emit ir.enabled_coefficients element-wise as 1/0", g.module.line(g.node),
-                     props=("C05",) if be == "C" else ("C05", "C18"))
+    env = integral_env("cell")
+    got = run(f, env, "enabled coefficients", key="enabled_coefficients")
+    if got != [True, False, True]:
+        res.fail(key, f"IntegralIR.enabled_coefficients is {got!r}, UFL's integral data says [True, False, True]", rep.line(f.node))
+    # ---- expressions
+    g = rep.func("_compute_expression_ir")
+    res.functions.add(g.key)
+
+    def run_e(**kw):
+        it, env = S.expression(g)
+        try:
+            return value_of(it, g, env, **kw)
+        except Raised as e:
+            return f"raises {e.what}"
+
+    key = f"{g.key}:prefix:offsets"
+    res.ob(key)
+    got = named(run_e(key="coefficient_offsets"))
+    if got != [("B", 0), ("C", 3)]:
+        res.fail(key, f"expression with processed coefficients [B (dim 3), C (dim 4)] (original [A, B, C]): offsets into w are {got}, expected B->0, C->3", rep.line(g.node))
+    key = f"{g.key}:prefix:original_constant_offsets"
+    res.ob(key)
+    got = named(run_e(key="original_constant_offsets"))
+    if got != want_c:
+        res.fail(key, f"expression whose original form has constants [k0 (), k1 (2,3), k2 (2,)]: offsets into c are {got}, expected {want_c} (the constants of the "
+                 "ORIGINAL expression, the sequence the descriptor's constant names follow)", rep.line(g.node))
+    # enabled_coefficients emitted element-wise as 1/0 by both backends: rule GEN-INTEGRAL (generators interpreted)
+
+
+from ..absint import _PyCall as _PC  # noqa: E402
+
+_PyCallNone = _PC(lambda *a, **k: None)
 
 
 @rule(
@@ -505,62 +501,100 @@ def prefix_offsets(repo, res):
     min_instances=4,
 )
 def slot_restriction(repo, res):
-    sites = [
-        (SYMBOLS, "FFCXBackendSymbols.entity", "entity_local_index"),
-        (SYMBOLS, "FFCXBackendSymbols.element_table", "quadrature_permutation"),
-        ("ffcx.codegeneration.access", "FFCXBackendAccess.table_access", "quadrature_permutation"),
-    ]
-    for modname, q, arr in sites:
+    from ..absint import Interp as _I, Node as _N, Raised as _R
+    from ..lnodes_model import load_classes as _lc
+
+    ACC = "ffcx.codegeneration.access"
+
+    def world():
+        it = _I(repo, _lc(repo), primary=SYMBOLS)
+        it.obj_classes = {"FFCXBackendSymbols": SYMBOLS, "FFCXBackendAccess": ACC}
+        it.overrides["logger"] = _N("Logger", exception=_PyCallNone, info=_PyCallNone, debug=_PyCallNone)
+        sym = lambda n, t="DataType.INT": it.construct("Symbol", [n, t], {})  # noqa: E731
+        symbols = _N("FFCXBackendSymbols", entity_local_index=sym("entity_local_index"), quadrature_permutation=sym("quadrature_permutation"),
+                     quadrature_loop_index=sym("iq"), element_tables={})
+        access = _N("FFCXBackendAccess", symbols=symbols)
+        return it, symbols, access, sym
+
+    def slots(v, arr):
+        """constant slots of `arr` selected anywhere in the value (None for a non-constant subscript)"""
+        out = []
+
+        def walk(x):
+            if isinstance(x, _N):
+                if x.cls == "ArrayAccess" and isinstance(x.f.get("array"), _N) and x.f["array"].f.get("name") == arr:
+                    i0 = x.f["indices"][0]
+                    out.append(int(i0.f["value"]) if isinstance(i0, _N) and i0.cls == "LiteralInt" else None)
+                for y in x.f.values():
+                    walk(y)
+            elif isinstance(x, (list, tuple)):
+                for y in x:
+                    walk(y)
+        walk(v)
+        return out
+
+    def table(permuted):
+        return _N("UniqueTableReferenceT", name="FE0", is_uniform=False, is_piecewise=False, is_permuted=permuted, tensor_factors=None,
+                  has_tensor_factorisation=False)
+
+    # FFCXBackendSymbols.entity
+    m = repo.mod(SYMBOLS)
+    f = m.func("FFCXBackendSymbols.entity")
+    res.functions.add(f.key)
+    key = f"{f.key}:entity_local_index:slots"
+    res.ob(key)
+    for et_ in ("cell", "facet", "vertex", "ridge"):
+        for restr in (None, "+", "-"):
+            it, symbols, access, sym = world()
+            try:
+                v = it.call_f(f, [symbols, et_, restr])
+            except _R as e:
+                res.fail(key, f"entity({et_!r}, {restr!r}) raises ({e.what})", m.line(f.node))
+                continue
+            got = slots(v, "entity_local_index")
+            want = [] if et_ == "cell" else [1 if (restr == "-" and et_ == "facet") else 0]
+            if et_ == "cell":
+                if got or not (isinstance(v, _N) and v.cls == "LiteralInt" and v.f["value"] == 0):
+                    res.fail(key, f"entity('cell', {restr!r}) is {v!r}; cell integrals have the single local entity 0", m.line(f.node))
+            elif got != want:
+                res.fail(key, f"entity({et_!r}, {restr!r}) selects slot {got} of entity_local_index; slot 1 is the '-' cell's facet and is used exactly for "
+                         f"the \"-\" restriction of a facet integral, slot 0 otherwise (expected {want})", m.line(f.node))
+    # quadrature_permutation: element_table and table_access
+    for modname, q in ((SYMBOLS, "FFCXBackendSymbols.element_table"), (ACC, "FFCXBackendAccess.table_access")):
         m = repo.mod(modname)
         f = m.func(q)
         res.functions.add(f.key)
-        cfg = CFG(f.node)
-        # collect (slot, condition-on-restriction) for each subscript
-        minus_guards = [tid for tid, st in cfg.if_stmt.items() if ast.unparse(st.test).replace(" ", "") in ("restriction=='-'", "'-'==restriction")]
-        plus_guards = [tid for tid, st in cfg.if_stmt.items() if ast.unparse(st.test).replace(" ", "") in ("restriction=='+'", "'+'==restriction")]
-        subs = []
-        for n in cfg.nodes:
-            if n.ast is None or n.kind != "stmt":
-                continue
-            for x in ast.walk(n.ast):
-                if isinstance(x, ast.Subscript) and arr in ast.unparse(x.value) and isinstance(x.slice, ast.Constant):
-                    subs.append((n, x.slice.value))
-        key = f"{f.key}:{arr}:slots"
+        key = f"{f.key}:quadrature_permutation:slots"
         res.ob(key)
-        if not subs:
-            res.fail(key, f"no constant-slot subscript of {arr} found in {q}", m.line(f.node))
-            continue
-        if not minus_guards and not plus_guards:
-            res.fail(key, f"{q} selects a slot of {arr} without looking at the restriction", m.line(f.node))
-            continue
-        minus_entries = set().union(*[cfg.if_true[t] for t in minus_guards]) if minus_guards else set()
-        for n, slot in subs:
-            under_minus = n.id not in cfg.reachable(cfg.entry.id, blocked=minus_entries) if minus_entries else False
-            if slot == 1 and not under_minus:
-                res.fail(key, f"{q}: slot 1 of {arr} is used on a path not restricted to \"-\"", m.line(n.ast))
-            if slot == 0 and under_minus:
-                res.fail(key, f"{q}: slot 0 of {arr} is used for the \"-\" restriction (the '+' cell's entity/permutation is applied to the '-' cell)", m.line(n.ast))
-            if slot not in (0, 1):
-                res.fail(key, f"{q}: slot {slot} of {arr} does not exist (size 2)", m.line(n.ast))
-        if not any(slot == 1 for _n, slot in subs):
-            res.fail(key, f"{q}: the \"-\" restriction never selects slot 1 of {arr}", m.line(f.node))
-        # the value selected under '-' must be what is finally used: no later unconditional overwrite
-        if arr == "quadrature_permutation":
-            key2 = f"{f.key}:{arr}:minus-wins"
-            res.ob(key2)
-            for n, slot in subs:
-                if slot == 1:
-                    later = [(n2, s2) for n2, s2 in subs if s2 == 0 and n2.id in cfg.reachable(n.id, kinds=("n",)) and n2.id != n.id]
-                    if later:
-                        res.fail(key2, f"{q}: the slot chosen for \"-\" is overwritten by slot 0 afterwards", m.line(later[0][0].ast))
+        key2 = f"{f.key}:quadrature_permutation:minus-wins"
+        res.ob(key2)
+        for permuted in (True, False):
+            for restr in (None, "+", "-"):
+                it, symbols, access, sym = world()
+                try:
+                    if q.endswith("element_table"):
+                        v = it.call_f(f, [symbols, table(permuted), "facet", restr])
+                    else:
+                        symbols.f["element_tables"]["FE0"] = sym("FE0", "DataType.REAL")
+                        qi = it.construct("MultiIndex", [[sym("iq")], [4]], {})
+                        di = it.construct("MultiIndex", [[sym("ic")], [3]], {})
+                        v = it.call_f(f, [access, table(permuted), "facet", restr, qi, di])
+                        v = v[0] if isinstance(v, tuple) else v
+                except _R as e:
+                    res.fail(key, f"{q}(permuted={permuted}, restriction={restr!r}) raises ({e.what})", m.line(f.node))
+                    continue
+                got = slots(v, "quadrature_permutation")
+                want = [1 if restr == "-" else 0] if permuted else []
+                if got != want:
+                    k_ = key2 if (permuted and restr == "-" and got == [0]) else key
+                    res.fail(k_, f"{q}: a table {'with' if permuted else 'without'} permutation axis under restriction {restr!r} is indexed with slot(s) {got} of "
+                             f"quadrature_permutation, expected {want}: the '+' cell's reference-facet permutation would be applied to the '-' cell (or vice versa)",
+                             m.line(f.node))
     # restriction postfix in names: + -> 0, - -> 1
     m = repo.mod(SYMBOLS)
     f = m.func("ufcx_restriction_postfix")
     key = f"{f.key}:postfix"
     res.ob(key)
-    from ..absint import Interp as _I, Raised as _R
-    from ..lnodes_model import load_classes as _lc
-
     it_ = _I(repo, _lc(repo), primary=SYMBOLS)
     try:
         got = {r_: it_.call_f(f, [r_]) for r_ in ("+", "-", None)}
